@@ -150,3 +150,69 @@ package connect
 //@ lemma percent_roundtrip(e seq, m seq): isEnc(e, m) && (forall b int :: {m[b]} 0 <= b && b < |m| ==> 0 <= m[b] && m[b] <= 255) ==> pdec(e, 0) == m
 //@   tags C18
 //@   use percent_roundtrip_at(e, m, 0)
+
+// ---------------------------------------------------------------------------
+// error.go
+// ---------------------------------------------------------------------------
+
+//@ func NewError(c, underlying) res
+//@   tags C02, C06, C10, C15
+//@   ensures fresh(res) && res.code == c && res.err == underlying  // label: fields
+//@   ensures forall t ref :: {Is(res, t)} Is(res, t) <==> (t == res || Is(underlying, t))   // label: unwraps-to-underlying
+//@   ensures asErr(res) == res && dtypeIs(res, "*Error")           // label: is-coded
+
+// ---------------------------------------------------------------------------
+// protocol_grpc.go: timeouts
+// ---------------------------------------------------------------------------
+
+// Units of the gRPC timeout grammar (PROTOCOL-HTTP2.md: TimeoutUnit -> "H" / "M" / "S" / "m" / "u" / "n").
+//@ spec isUnit(c int) bool = c == 'n' || c == 'u' || c == 'm' || c == 'S' || c == 'M' || c == 'H'
+//@ spec unitSize(c int) int = if c == 'n' then 1 else if c == 'u' then 1000 else if c == 'm' then 1000000 else if c == 'S' then 1000000000 else if c == 'M' then 60000000000 else 3600000000000
+//@ spec unitIdx(c int) int = if c == 'n' then 0 else if c == 'u' then 1 else if c == 'm' then 2 else if c == 'S' then 3 else if c == 'M' then 4 else if c == 'H' then 5 else 0 - 1
+// scale(v, c) = v * unitSize(c), written so that every product is by a constant.
+//@ spec scale(v int, c int) int = if c == 'n' then v else if c == 'u' then v * 1000 else if c == 'm' then v * 1000000 else if c == 'S' then v * 1000000000 else if c == 'M' then v * 60000000000 else v * 3600000000000
+// Timeout -> TimeoutValue TimeoutUnit ; TimeoutValue -> {positive integer as ASCII string of at most 8 digits}
+//@ spec gramT(s seq) bool = |s| >= 2 && |s| <= 9 && isNum10(s[:|s|-1]) && isUnit(s[|s|-1])
+//@ spec durT(s seq) int = scale(val10(s[:|s|-1]), s[|s|-1])
+
+//@ consttable grpcTimeoutUnits
+//@ immutable grpcTimeoutUnitLookup, grpcTimeoutUnits
+//@ globalinv unitLookup: grpcTimeoutUnitLookup != nil && (forall c int :: 0 <= c && c <= 255 ==> (mapdom(grpcTimeoutUnitLookup, c) <==> isUnit(c)) && (isUnit(c) ==> mapval(grpcTimeoutUnitLookup, c) == unitSize(c)))
+
+//@ func init#1()
+//@   tags C10
+//@   requires freshmap(grpcTimeoutUnitLookup)
+//@   assigns everything
+//@   establishes unitLookup
+//@   loop 1:
+//@     invariant 0 - 1 <= rangeindex && rangeindex < 6 && grpcTimeoutUnitLookup != nil
+//@     invariant forall c int :: 0 <= c && c <= 255 ==> (mapdom(grpcTimeoutUnitLookup, c) <==> (isUnit(c) && unitIdx(c) <= rangeindex)) && (mapdom(grpcTimeoutUnitLookup, c) ==> mapval(grpcTimeoutUnitLookup, c) == unitSize(c))
+//@     decreases 6 - rangeindex
+
+//@ func grpcParseTimeout(timeout) (res, err)
+//@   tags C10, C07
+//@   use unitLookup
+//@   split |timeout| >= 1 && timeout[|timeout|-1] == 'n', |timeout| >= 1 && timeout[|timeout|-1] == 'u', |timeout| >= 1 && timeout[|timeout|-1] == 'm', |timeout| >= 1 && timeout[|timeout|-1] == 'S', |timeout| >= 1 && timeout[|timeout|-1] == 'M', |timeout| >= 1 && timeout[|timeout|-1] == 'H'
+//@   ensures timeout == "" ==> err == errNoTimeout                                                                  // label: absent-means-no-timeout
+//@   ensures gramT(timeout) && durT(timeout) <= 9223372036854775807 ==> err == nil && res == durT(timeout)          // label: honoured-exactly
+//@   ensures gramT(timeout) && durT(timeout) > 9223372036854775807 ==> err != nil && Is(err, errNoTimeout)          // label: unbounded-if-unrepresentable
+//@   ensures |timeout| >= 1 && !isUnit(timeout[|timeout|-1]) ==> err != nil && !Is(err, errNoTimeout)               // label: unknown-unit-rejected
+//@   ensures |timeout| >= 1 && isUnit(timeout[|timeout|-1]) && !isInt10(timeout[:|timeout|-1]) ==> err != nil && !Is(err, errNoTimeout)   // label: non-decimal-rejected
+//@   ensures |timeout| >= 1 && isNum10(timeout[:|timeout|-1]) && val10(timeout[:|timeout|-1]) > 99999999 ==> err != nil && !Is(err, errNoTimeout)   // label: too-many-digits-rejected
+
+//@ func grpcEncodeTimeout(timeout) (res, err)
+//@   tags C10
+//@   ensures timeout > 0 ==> err == nil                                                                             // label: never-truncated
+//@   ensures timeout > 0 ==> gramT(res)                                                                             // label: grammatical
+//@   ensures timeout > 0 ==> durT(res) <= timeout                                                                   // label: never-longer
+//@   ensures timeout > 0 ==> (timeout - durT(res)) * 10000 < timeout || timeout - durT(res) == 0                    // label: within-0.01-percent
+//@   ensures timeout <= 0 ==> err == nil && gramT(res)                                                              // label: expired-is-grammatical
+//@   loop 1:
+//@     invariant 0 - 1 <= rangeindex && rangeindex < 6 && timeout > 0
+//@     invariant rangeindex >= 0 ==> timeout >= 10000000
+//@     invariant rangeindex >= 1 ==> timeout / 1000 >= 10000000
+//@     invariant rangeindex >= 2 ==> timeout / 1000000 >= 10000000
+//@     invariant rangeindex >= 3 ==> timeout / 1000000000 >= 10000000
+//@     invariant rangeindex >= 4 ==> timeout / 60000000000 >= 10000000
+//@     invariant rangeindex >= 5 ==> timeout / 3600000000000 >= 10000000
+//@     decreases 6 - rangeindex
